@@ -1,0 +1,20 @@
+//go:build verif
+
+package base64streamreader
+
+// Contracts checked by /verif/govc (see /verif/DESIGN.md). Comment-only file.
+
+// Reading any byte stream never panics and never reports more bytes than p holds (C04).
+//@ func (r *reader) Read
+//@   opt safety-tag=C04
+//@   ensures[C04] 0 <= ret && ret <= len(p)
+//@   modifies fields(r), all(byte), fresh
+
+// The wrapped reader is set once by New and never nil.
+//@ typeinv reader r
+//@   inv[C04] r.r != nil
+
+//@ func New
+//@   requires r != nil
+//@   ensures[C04] ret != nil
+//@   modifies fresh
